@@ -513,9 +513,6 @@ func (*compiler).loadSmallAnyValue
 func (*compiler).compareAnyType
   trusted
   modifies nothing
-func (*compiler).runtime_error
-  trusted
-  modifies nothing
 func (*compiler).mangledNameType
   trusted
   modifies nothing
